@@ -32,7 +32,7 @@ CCRX = ["", "0", "100000", "65536", "99999999999999999999999", "+5", "12a", "184
         "1844674407370955162", "007"]
 # accepted requests: a CC-RX at or above 2^63 puts a nonsensical rate into the Brutal sender (property C10's finding)
 # and stalls the connection; it is kept out of ACCEPTED auth requests only (rejected ones keep the whole list)
-CCRX_ACCEPTED = ["", "0", "100000", "65536", "+5", "12a", "007", "4294967296", "300000"]
+CCRX_ACCEPTED = ["", "0", "100000", "65536", "+5", "12a", "4294967296", "300000"]  # ("007" = 7 bytes/s would throttle the connection to a standstill)
 
 
 def auth_req(rng, c, n, good, form=None):
